@@ -62,7 +62,7 @@ def main(argv=None):
     ap.add_argument('--tier', default=os.environ.get('VERIF_TIER', 'quick'))
     ap.add_argument('--only', default='')
     ap.add_argument('--replay', default=None)
-    ap.add_argument('--jobs', type=int, default=int(os.environ.get('VERIF_JOBS', '8')))
+    ap.add_argument('--jobs', type=int, default=int(os.environ.get('VERIF_JOBS', '14')))
     a = ap.parse_args(argv)
     pid = a.pid
     tier = a.tier if a.tier in ('quick', 'thorough') else 'quick'
